@@ -22,6 +22,8 @@ type Contract struct {
 	Locked        bool   // `locked`: the function is entered (and left) with the UI mutex held
 	Arith2        string // "heapwf": state heap well-formedness (all stored refs < alloc) before every allocation
 	Deterministic bool
+	Cells         bool // `cells`: the function handles the match lists of ansi.expand (cell model on loads)
+	Lines         bool // `strlines`: line-measure facts (mxl/fstl/lstl) are emitted for its strings
 	Key       string // pkg.Func | pkg.Type.Method | pkg.Func$1
 	Kind      string // func | iface | field
 	Header    string
@@ -340,6 +342,16 @@ func (cs *ContractSet) loadFile(path, repo string) {
 			flush()
 			if cur != nil {
 				cur.Deterministic = true
+			}
+		case "cells":
+			flush()
+			if cur != nil {
+				cur.Cells = true
+			}
+		case "strlines":
+			flush()
+			if cur != nil {
+				cur.Lines = true
 			}
 		case "defines":
 			flush()
